@@ -305,7 +305,7 @@ func drawGroup(ch *Choices, p Profile, rc *RunCfg, idx int, isDefault bool) *Gro
 		g.LaunchTemplateID = fmt.Sprintf("lt-%d", idx)
 		g.LaunchTemplateVersion = []string{"1", "$Latest"}[s.Intn(2)]
 		g.Lifecycle = []string{"", "on-demand", "spot"}[s.Intn(3)]
-		g.FleetTimeout = []string{"", "5s", "30s", "2m"}[s.Intn(4)]
+		g.FleetTimeout = []string{"", "4500ms", "30500ms", "90500ms"}[s.Intn(4)] // never a whole number of seconds: the provider's 1 s ticker and its deadline timer must not fire at the same instant (Go's select would pick at random)
 		g.Overrides = [][]string{nil, {"m5.large"}, {"c5.xlarge", "m5.xlarge"}}[s.Intn(3)]
 		g.Tagging = s.Chance(0.3)
 	} else {
